@@ -208,7 +208,7 @@ def cli_case(ctx, idx, text, cwd_rel, out):
 def inputs(ctx):
     ex = [(n, t) for n, t in configs.example_texts() if n in ('example1.txt', 'example2.txt', 'example10_HP.txt', 'example1_addons.txt')]
     ex = ex[:ctx.n(2, 4)]
-    syn = [(f'synthetic{i}', runner.params_to_text(configs.synthetic(ctx.rng))) for i in range(ctx.n(2, 12))]
+    syn = [(f'synthetic{i}', runner.params_to_text(configs.synthetic(ctx.rng))) for i in range(ctx.n(2, 8))]
     ok = [(n, t.rstrip('\n') + '\nPrint Output to Console, 0\n') for n, t in ex + syn]
     return ok, list(SPECIAL.items())
 
